@@ -229,9 +229,16 @@ func (r *rng) engineProgram() *SX {
 		out = append(out, g.repeatStmt())
 	}
 	nf := r.intn(3)
+	sameMsg := r.chance(1, 4) // several failure sites reporting one and the same message
 	for i := 0; i < nf; i++ {
 		v := g.vars[r.intn(len(g.vars))]
-		out = append(out, L(A("if"), r.condOn(v, g.kinds[v]), g.failStmt()))
+		f := g.failStmt()
+		if sameMsg {
+			s := g.nextSite % 8
+			g.nextSite++
+			f = L(A([]string{"failnow", "rtpanic"}[r.intn(2)]), N(int64(s)))
+		}
+		out = append(out, L(A("if"), r.condOn(v, g.kinds[v]), f))
 	}
 	if r.chance(1, 5) {
 		out = append(out, L(append([]*SX{A("cleanup")}, g.cleanupBody(1)...)...))
